@@ -38,6 +38,7 @@ t1, t2, t3, t4 = tally(r1), tally(r2), tally(r3), tally(r4)
 final_fi = sum(1 for m in metas if not m.get("rejected") and ((m.get("checks") or {}).get(m["property"], {}).get("kind") == "failing-input"))
 valid = [m for m in metas if not m.get("rejected")]
 nsub = sum(1 for m in metas if (m.get("suite") or {}).get("ignored"))
+nonly = sum(1 for m in metas if m.get("suite_only"))
 tfired = sum(1 for m in metas if (m.get("checks") or {}).get(m["property"], {}).get("broken_obligations"))
 
 print(f"""## 12. Seeded changes: which check catches which
@@ -55,8 +56,9 @@ demonstration again (must fail), runs `./check <property> --tier quick`, and res
 `/root/.vp/BASELINE.json`, comparing with its `stable_pass` list (`meta.json["suite"]`; for the {nsub} changes confirmed last the
 command ran with `--ignore=tests/pyspark --ignore=tests/modin --ignore=tests/dask` — 2914 of the 3505 stable tests —
 because those three directories start JVM / ray / dask clusters and eighteen such suites side by side brought the machine to a
-load average above 2000 and into the runner's time limit; the agents ran `tests/pyspark/test_schemas_on_pyspark_pandas.py`
-themselves wherever a change touches the pandas backends, see each `notes.md`). Everything is
+load average above 2000 and into the runner's time limit; for the {nonly} of them that touch the pandas backends, the api classes, the
+engines, the configuration or the decorators, `tests/pyspark/test_schemas_on_pyspark_pandas.py` — the pyspark file that exercises the
+pandas backends — was then run on its own, `meta.json["suite_only"]`). Everything is
 kept under `/verif/seeded/<id>/` (`patch.diff`, `demo.py`, the agent's `notes.md`, `meta.json` with the
 property, what the change needs to manifest, what was run, the first and the final verdict; ids `-A`,
 `-B` are round 1, `-C`, `-D` round 2, `-E`, `-F` round 3, `-G`, `-H` round 4). None of these changes is committed in `/repo`. Three round-1
@@ -112,5 +114,11 @@ outside the region was added or the region was narrowed; (3) a seeded change can
 obligation of another property's driver* — drivers now import only model and generated files; (4) the
 agents validated their changes against subsets of the suite; the full pinned suite is run here
 (`tools/seed_confirm.py`), with three environment artefacts of that suite handled explicitly (pyspark
-worker interpreter, two parametrisations whose ids depend on the hash seed).
+worker interpreter, two parametrisations whose ids depend on the hash seed); (5) one seed of the quick tier is
+one sample: after round 4 every check was run under seeds 1–4 and in the thorough tier on the unchanged tree,
+which surfaced four more genuine defects (`f362c40`, `4b71058`, `d71f073`, the region
+`K_C10_bytes-to-str`) and one place where the model had not followed an earlier repair (§13) — all of them
+inputs the widened generators reach only now and then; (6) a seeded change can stop being a valid
+seed because of a repair made meanwhile (C03-H), and a demonstration can go stale the same way (C11-B): both
+are re-run against the current tree before they are counted.
 """)
